@@ -582,6 +582,9 @@ pub struct Expect {
     pub features: BTreeSet<&'static str>,
     /// first failing source and error, every failing source of the closure
     pub failing: BTreeMap<String, ErrKind>,
+    /// whatever the verdict: members of the closure that evaluate successfully
+    /// (source -> (output path, output bytes, temp files))
+    pub ok_sources: BTreeMap<String, (String, String, BTreeMap<String, String>)>,
 }
 
 #[derive(Debug, Clone)]
@@ -657,6 +660,7 @@ impl<'a> Model<'a> {
             markers: BTreeMap::new(),
             features: BTreeSet::new(),
             failing: BTreeMap::new(),
+            ok_sources: BTreeMap::new(),
         };
         if let Some(p) = &self.tree_problem {
             ex.verdict = Verdict::Excluded(p.clone());
@@ -687,7 +691,12 @@ impl<'a> Model<'a> {
         let all: Vec<String> = ex.may_process.iter().cloned().collect();
         for s in &all {
             match self.eval(s) {
-                SrcResult::Ok(_) => {}
+                SrcResult::Ok(ev) => {
+                    ex.ok_sources.insert(
+                        s.clone(),
+                        (names::output_of(s).unwrap(), ev.output.clone(), ev.temps.clone()),
+                    );
+                }
                 SrcResult::Err(k) => {
                     ex.failing.insert(s.clone(), k);
                 }
@@ -724,7 +733,7 @@ impl<'a> Model<'a> {
                 let e = ex.markers.entry(m.clone()).or_insert((0, 0));
                 // commands before the first dependency directive of a file with dependencies
                 // legitimately run in both passes
-                e.0 += if twice { 2 } else { 1 };
+                e.0 += 1;
                 e.1 += if twice { 2 } else { 1 };
             }
             for m in &ev.markers_post {
